@@ -19,8 +19,8 @@ pub fn prop() -> Prop {
             "a failing call that consumes its whole iterator and one that stops after j items are both tried",
         ],
         subs: vec![
-            Sub::tape("native_target", 460, 12_000, 600_000, |d, cx| run(d, cx, true)),
-            Sub::tape("draw_iter_only_target", 460, 12_000, 600_000, |d, cx| run(d, cx, false)),
+            Sub::tape("native_target", 460, 40_000, 2_000_000, |d, cx| run(d, cx, true)),
+            Sub::tape("draw_iter_only_target", 460, 40_000, 2_000_000, |d, cx| run(d, cx, false)),
         ],
     }
 }
